@@ -98,9 +98,15 @@ type Frame struct {
 	names     map[types.Object]V
 	headMem   map[string]*MemVer // memories at the head of the current iteration of the innermost cut loop
 	entryVals map[string]V       // value of each loop-carried variable when its loop was entered (entry_<name>)
+	lastCall  map[string]callRec // contract calls made since the head of the current loop iteration (called_<name>, call_<name>_r<i>)
 	bindings  []V
 	args      []V
 	entryMem  map[string]*MemVer
+}
+
+// callRec is the most recent call of a function under contract in the current loop iteration.
+type callRec struct {
+	args, results []V
 }
 
 type State struct {
@@ -116,20 +122,22 @@ type State struct {
 	inputs     []inputSym
 	nlocal     int
 	regions    int
-	allocs     []string          // allocation size terms (elements), for the allocation bound
-	pool       map[int][]string  // instantiation terms by width, for callee quantifiers
-	stale      map[string]bool   // pointer terms whose pointee may hold contents left over from earlier use
-	ghostMemo  map[string][]V    // results of ghost calls by (callee, argument terms, memory versions)
-	strConst   map[string]V      // string constants by content
-	loopStores []storeRange      // set while a loop is being cut: the body's heap stores, when all are at addresses fixed before the loop
-	loopFresh  bool              // with loopStores: the body also stores into objects allocated by this function
-	defMemo    map[string]string // define-fun bodies already named on this path
-	lemmaSeen  map[string]bool   // arithmetic lemmas already asserted on this path (elemLemma)
-	boundedIdx map[string]bool   // index terms known to lie in [0, 2^40) on this path (bounds checked or clamped)
-	storeFresh bool              // set around a store whose target lies in an object allocated by this function
-	loadMeta   bool              // set around a load from codec metadata
-	loadFresh  bool              // set around a load from an object allocated by this function
-	qasm       []*qAssume        // quantified assumptions, instantiated again whenever a new term appears
+	allocs     []string           // allocation size terms (elements), for the allocation bound
+	pool       map[int][]string   // instantiation terms by width, for callee quantifiers
+	stale      map[string]bool    // pointer terms whose pointee may hold contents left over from earlier use
+	ghostMemo  map[string][]V     // results of ghost calls by (callee, argument terms, memory versions)
+	strConst   map[string]V       // string constants by content
+	loopStores []storeRange       // set while a loop is being cut: the body's heap stores, when all are at addresses fixed before the loop
+	loopFresh  bool               // with loopStores: the body also stores into objects allocated by this function
+	defMemo    map[string]string  // define-fun bodies already named on this path
+	lemmaSeen  map[string]bool    // arithmetic lemmas already asserted on this path (elemLemma)
+	topCalls   map[string]callRec // most recent contract call per callee made by the function under analysis itself (post-conditions: called_<name>, call_<name>_r<i>)
+	boundedIdx map[string]bool    // index terms known to lie in [0, 2^40) on this path (bounds checked or clamped)
+	storeFresh bool               // set around a store whose target lies in an object allocated by this function
+	loadMeta   bool               // set around a load from codec metadata
+	loadFresh  bool               // set around a load from an object allocated by this function
+	invInput   bool               // set while the type invariants of an input (parameter) are assumed
+	qasm       []*qAssume         // quantified assumptions, instantiated again whenever a new term appears
 	inLate     bool
 	loopInits  [][2]string // (havocked loop symbol, its value on loop entry): replay prefers first iterations
 }
@@ -181,6 +189,12 @@ func (st *State) fork() *State {
 			nf.names[k] = v
 		}
 		nf.headMem = f.headMem
+		if f.lastCall != nil {
+			nf.lastCall = make(map[string]callRec, len(f.lastCall))
+			for k, v := range f.lastCall {
+				nf.lastCall[k] = v
+			}
+		}
 		nf.entryVals = map[string]V{}
 		for k, v := range f.entryVals {
 			nf.entryVals[k] = v
@@ -206,6 +220,10 @@ func (st *State) fork() *State {
 	n.boundedIdx = make(map[string]bool, len(st.boundedIdx))
 	for k, v := range st.boundedIdx {
 		n.boundedIdx[k] = v
+	}
+	n.topCalls = make(map[string]callRec, len(st.topCalls))
+	for k, v := range st.topCalls {
+		n.topCalls[k] = v
 	}
 	n.strConst = map[string]V{}
 	for k, v := range st.strConst {
